@@ -307,6 +307,18 @@ class Gen:
                 fr.labels_done.append(lab)
                 body.insert(r.randint(0, len(body)), {"k": "label", "n": lab})
             return [{"k": "include", "f": fname, "b": body}]
+        if kind == "include_ips":
+            if fr.in_macro or fr.in_loop:
+                return None
+            from vf.ref import ips as _ips
+            fname = self.name("pat") + ".ips"
+            recs = []
+            for _ in range(r.randint(1, 3)):
+                off = r.choice([0x10, 0x7FF0, 0x20000, r.randrange(1 << 20)])
+                recs.append({"off": off, "rle": (r.randint(1, 40), r.randrange(256))} if r.random() < 0.3 else {"off": off, "data": r.randbytes(r.randint(1, 24))})
+            self.files[fname] = _ips.build(recs)
+            delta = r.choice([0, 0, 0x200, 0x1000])
+            return [{"k": "include_ips", "f": fname, "delta": E(delta)}]
         if kind == "org":
             if fr.in_macro or fr.in_loop:
                 return None
